@@ -262,7 +262,9 @@ pub fn accept_step(sh: &Rc<Shared>, expire: bool, nested: bool) {
             } else {
                 sh.violate(Violation::new("accept-panic", format!("the accept loop panicked: {msg}")));
             }
-            std::mem::forget(acc);
+            // release the listeners (ports, descriptors) of the dead loop: thousands of violating
+            // runs in one process would otherwise exhaust both and make later runs depend on it
+            let _ = catch_unwind(AssertUnwindSafe(move || drop(acc)));
         }
     }
 }
